@@ -74,10 +74,10 @@ PROPS = {
     "C17": P("end-of-block totality", ["gov", "default", "staking"], ["params", "assets"], ["endblock", "params", "update"],
              "totality theorem under the explicit EndBlockOK predicate; result correspondence of every EndBlocker run",
              module=None),
-    "C18": P("genesis round trip", ["default", "queues"], ["*"], ["export"],
+    "C18": P("genesis round trip", ["genesis"], ["*"], ["reimport"] + ALL_OPS,
              "export/import theorems over the model; lock-step continuation on original and re-imported state",
              module=None, probes="C18"),
-    "C19": P("determinism", ["default"], ["*"], ["*"],
+    "C19": P("determinism", ["default", "queues"], ["*"], ["*"],
              "the model's step is a function and the implementation equals it on every explored step; regenerated hazard table",
              module=None, level="other", probes="C19"),
     "C20": P("queries", ["queues", "default"], ["uq", "ui", "redels", "dels"], ["query"] + USER_OPS,
@@ -85,6 +85,8 @@ PROPS = {
              module=None, probes="C20"),
 }
 
+
+PROPS["C19"]["replays"] = 3
 
 # properties not claimed (none: every property is decided by the same technique; C19 at level `other`)
 NOT_APPLICABLE = {}
